@@ -3,7 +3,7 @@
 set -u
 SPEC=$1; TRACE=$2; PROP=${3:-all}; WD=${4:-/verif/.work/tv.$$}
 mkdir -p "$WD" && cp /verif/spec/*.tla /verif/spec/*.cfg "$WD"/ && cd "$WD" || exit 2
-TRACE="$TRACE" PROP="$PROP" JAVA_TOOL_OPTIONS="-Dtlc2.tool.queue.IStateQueue=StateDeque" \
+TRACE="$TRACE" PROP="$PROP" JAVA_TOOL_OPTIONS="-Xss256m -Dtlc2.tool.queue.IStateQueue=StateDeque" \
   timeout ${TV_TIMEOUT:-600} tlc -workers 1 -metadir "$WD/md" -config "$SPEC.cfg" "$SPEC.tla" > "$WD/tlc.out" 2>&1
 rc=$?
 grep -E 'TVMARK|Error|Invariant|states generated|Finished in' "$WD/tlc.out" | head -20
